@@ -375,20 +375,24 @@ def strLoop (q : Nat) (triple : Bool) : List Nat → Except (ErrKind × Nat) (Li
       else .ok ([], 1)
     else bump 1 [c] (strLoop q triple r)
 
+/-- `self.window[..2] == [Some(quote_char); 2]` right after the opening quote -/
+def isTripleOpen (q : Nat) : List Nat → Bool
+  | a :: b :: _ => a = q && b = q
+  | _ => false
+
 /-- `lex_string(kind)`; the caller guarantees that the character after the prefix is a quote -/
 def lexString (kind : StringKind) (inp : List Nat) : Sub :=
-  let pl := kind.prefixLen
-  match inp.drop pl with
-  | [] => .error (panicErr pl)                       -- `self.next_char().unwrap()`
+  match inp.drop kind.prefixLen with
+  | [] => .error (panicErr kind.prefixLen)                       -- `self.next_char().unwrap()`
   | q :: r =>
-    let triple := match r with
-      | a :: b :: _ => a = q && b = q
-      | _ => false
-    let body := if triple then r.drop 2 else r
-    let base := if triple then pl + 3 else pl + 1
-    match strLoop q triple body with
-    | .ok (value, n) => .ok (.string value kind triple, base + n)
-    | .error (k, off) => .error ⟨k, base + off, base + off⟩
+    if isTripleOpen q r then
+      match strLoop q true (r.drop 2) with
+      | .ok (value, n) => .ok (.string value kind true, kind.prefixLen + 3 + n)
+      | .error (k, off) => .error ⟨k, kind.prefixLen + 3 + off, kind.prefixLen + 3 + off⟩
+    else
+      match strLoop q false r with
+      | .ok (value, n) => .ok (.string value kind false, kind.prefixLen + 1 + n)
+      | .error (k, off) => .error ⟨k, kind.prefixLen + 1 + off, kind.prefixLen + 1 + off⟩
 
 /-- `lex_identifier`: string-prefix detection, then name / keyword -/
 def lexIdentifier (up : UParams) (inp : List Nat) : Sub :=
@@ -487,6 +491,11 @@ def flushIndents : List IndentLevel → Nat × List IndentLevel
   | [b] => (0, [b])
   | _ :: r => ((flushIndents r).1 + 1, (flushIndents r).2)
 
+/-- `matches!(self.window[1], Some('0'..='9'))` seen from the tail -/
+def headIsDigit : List Nat → Bool
+  | d :: _ => isDigit d
+  | [] => false
+
 /-- `consume_character(c)` with `inp = c :: cs` -/
 def consumeCharacter (cfg : Cfg) (st : LexState) (c : Nat) (cs : List Nat) : Except ErrRel StepOut :=
   if isDigit c then ofSub st (lexNumber (c :: cs))
@@ -498,7 +507,7 @@ def consumeCharacter (cfg : Cfg) (st : LexState) (c : Nat) (cs : List Nat) : Exc
     match cs with
     | 61 :: _ => .ok (one (.op .NotEqual) 2 st)
     | _ => .error ⟨.unrecognizedToken 33, 0, 1⟩
-  else if c = 46 && (match cs with | d :: _ => isDigit d | [] => false) then   -- '.' digit
+  else if c = 46 && headIsDigit cs then                           -- '.' digit
     ofSub st (lexNumber (c :: cs))
   else match lexOp (c :: cs) with
   | some (o, n) => .ok (one (.op o) n st)
